@@ -23,9 +23,10 @@ P = {
          TB_PROOF + "; marker part: " + TB_ORACLE, "machine-checked proof in Coq (specifiers) + differential oracle (markers)", "5"),
  "C13": ("proof", "Specifier part: C13_refl/sym/trans/total/hash/congr over the regenerated model (generated dataclass ==, Any/Empty __eq__, reflected dispatch, generated hash keys incl. "
          "the two spellings of the universal set): == is an equivalence on canonical values, equal objects have equal hash keys, and equal operands give equal results for every operator and side. "
-         "Marker part (atoms differing in operand order / value order / caches): direct oracle only.",
+         "Marker part: C13m_refl/sym/trans (marker == is an equivalence; grouped ==/!= atoms compare their values as sets), C13m_same_meaning, C13m_interchangeable (==-equal operands give & / | results with the same meaning, either side) over Model/Marker.v; "
+         "hash agreement of markers and objects differing only in attached caches: direct oracle only.",
          TB_PROOF + "; hash() is modelled as a function of the generated hash key (S-gen compares key equality with observed hash equality); marker part: " + TB_ORACLE,
-         "machine-checked proof in Coq (specifiers) + differential oracle (markers)", "5"),
+         "machine-checked proof in Coq (specifiers over the regenerated model; marker == over a hand model) + differential oracle (marker hashes)", "5"),
  "C09": ("proof", "C09_manylinux/musl/mac_x86/mac_arm64/win/score for ALL target versions by induction over the descending ranges (not only the grid), C09_order_grid as a computed sweep over the "
          "property's whole grid, C09_mac_arm64_10_refuted as the machine-checked witness of the recorded finding; Model/Platform.v is tied to platform.py by the S-plat stream, which is EXHAUSTIVE over the "
          "property's configuration grid, and the direct oracle compares every list with an independent rule oracle and with packaging.tags (probes stubbed).",
